@@ -1776,12 +1776,15 @@ class _Math:
 
     def reset(self):
         self.seen = {}
+        self.light = False
 
     # generic
     def _app(self, name, x, lemma):
         t = lift_real(x)
         f = self.F[name]
         app = f(t)
+        if getattr(self, 'light', False):
+            return R(app)       # plain uninterpreted application (harnesses that only need functional consistency)
         seen = self.seen.setdefault(name, {})
         key = t.get_id()
         if key not in seen:
